@@ -269,6 +269,29 @@ Proof.
 Qed.
 Print Assumptions C04_response_continues.
 
+(* non-vacuity: the four hypotheses hold on the order witness (flow 1 of
+   [w_flows], answered by its processor 2, selected again for the response), and
+   the continuation is not the trivial one: it is the processor 4 behind 2's
+   response connection, while flow 1 run from its (absent) response entry point
+   would contribute nothing. *)
+Definition w_flow1 : flow := {| fname := 1; freq := w_req; fres := w_res |}.
+Example C04_response_continues_witness :
+  snd (run_req 6 w_behs w_sel (Some w_sel)) = None
+  /\ snd (users_prefix 6 w_behs (s_user w_sel)) = Some (fname w_flow1, 2)
+  /\ In w_flow1 (s_user w_sel)
+  /\ NoDup (map fname (s_user w_sel))
+  /\ flow_events 6 w_behs Res (Some 2) w_flow1
+     = [ {| e_flow := 1; e_key := 4; e_dir := Res; e_cond := 1 |} ]
+  /\ flow_events 6 w_behs Res None w_flow1 = [].
+Proof.
+  split; [vm_compute; reflexivity|].
+  split; [vm_compute; reflexivity|].
+  split; [vm_compute; left; reflexivity|].
+  split; [|vm_compute; split; reflexivity].
+  vm_compute. constructor; [intros [H|[]]; discriminate H|].
+  constructor; [intros []|constructor].
+Qed.
+
 (* ... and what the continuation consists of: the processors reached from the
    targets of h's response connections (whatever their condition), following
    the output conditions from there on. *)
